@@ -134,6 +134,39 @@ namespace
     }
 }
 
+namespace
+{
+    // When in the life of the process a value is used is a dimension too: an application may build its credentials in
+    // the initialiser of a namespace-scope object, i.e. before main() and - with a static library - before the
+    // library's own translation units have run their dynamic initialisers.  This object is constructed during the
+    // static initialisation of the harness; what it computed is judged in the first case.
+    struct BeforeMain
+    {
+        std::string bytes, enc, dec, user, pass, text, what;
+        BeforeMain()
+        {
+            bytes = std::string("\x94\x9f\xaa\xb5 early bytes \x00\xff", 19);
+            try
+            {
+                enc = Base64Encoder::EncodeString(bytes);
+                Base64Decoder d(enc);
+                auto v = d.Decode();
+                dec.assign(reinterpret_cast<const char*>(v.data()), v.size());
+                Pistache::Http::Header::Authorization a;
+                a.setBasicUserPassword("early-user", "pass:word");
+                text = a.value();
+                user = a.getBasicUser();
+                pass = a.getBasicPassword();
+            }
+            catch (const std::exception& e)
+            {
+                what = e.what();
+            }
+        }
+    };
+    const BeforeMain g_before_main;
+}
+
 namespace verif
 {
     HarnessInfo harness_info() { return { "C20", 700 }; }
@@ -141,6 +174,20 @@ namespace verif
 
     Verdict run_case(const uint8_t* data, size_t size, Report& rep)
     {
+        {
+            static bool judged = false;
+            if (!judged)
+            {
+                judged             = true;
+                const BeforeMain& b = g_before_main;
+                rep.label("used-before-main");
+                V_CHECK(b.what.empty(), "C20/before-main/throws", "Base64 / Authorization used from the initialiser of a namespace-scope object threw: " + b.what);
+                V_CHECK(b.enc == ref_encode(b.bytes), "C20/before-main/encode", "encoded before main(): \"" + printable(b.enc, 60) + "\" instead of \"" + ref_encode(b.bytes) + "\"");
+                V_CHECK(b.dec == b.bytes, "C20/before-main/decode", "decoded before main(): " + std::to_string(b.dec.size()) + " bytes instead of " + std::to_string(b.bytes.size()));
+                V_CHECK(b.user == "early-user" && b.pass == "pass:word" && b.text == "Basic " + ref_encode("early-user:pass:word"), "C20/before-main/credentials",
+                        "credentials set before main() read back as \"" + printable(b.user, 30) + "\" / \"" + printable(b.pass, 30) + "\", header text \"" + printable(b.text, 60) + "\"");
+            }
+        }
         Choices c(data, size);
         unsigned mode = c.pick(8);
         if (mode <= 2)
